@@ -196,6 +196,69 @@ def safe (p : Prog) (b : SolB) : Bool :=
     which keeps the kernel's recursion shallow) -/
 def chunkOk (b : SolB) (is : List Instr) : Bool := is.all (fun i => instrOk b i && writeOk b i)
 
+/-! ## well-formedness of a program together with a candidate solution
+
+`SolB.look` reads the packed tables with `getD … 0`, so a variable the tables do not cover — or one that no
+instruction defines — has the *empty* points-to set, and a `write` through it passes `writeOk` vacuously.  That is
+sound for the program as given (such an instruction can never execute, `Props/C19.lean: unbound_of_undefined`), but
+it would hide a translator that dropped a defining instruction.  `wellFormed` is the decidable guard against that:
+it is part of the generated obligations (`wf_<entry>`) and of the executable checker (`ir.wf`). -/
+
+/-- the variables an instruction reads -/
+def Instr.uses : Instr → List Var
+  | .copy _ y => [y]
+  | .store y v => [y, v]
+  | .elem _ y => [y]
+  | .write x => [x]
+  | .setattr y v => [y, v]
+  | _ => []
+
+/-- the variable an instruction binds -/
+def Instr.defs : Instr → Option Var
+  | .new x _ => some x
+  | .copy x _ => some x
+  | .elem x _ => some x
+  | _ => none
+
+/-- the variable whose buffer an instruction changes -/
+def Instr.target : Instr → Option Var
+  | .write x => some x
+  | .store y _ => some y
+  | .setattr y _ => some y
+  | _ => none
+
+/-- every variable an instruction mentions -/
+def Instr.vars (i : Instr) : List Var :=
+  match i.defs with
+  | some x => x :: i.uses
+  | none => i.uses
+
+/-- set bit `x` (nothing for `none`) -/
+def orBit (m : Nat) : Option Var → Nat
+  | some x => m ||| (1 <<< x)
+  | none => m
+
+/-- bit `x` is set iff `x` is a parameter or is bound by some instruction of the program -/
+def defMask (p : Prog) : Nat :=
+  p.instrs.foldl (fun m i => orBit m i.defs) (p.params.foldl (fun m x => orBit m (some x)) 0)
+
+/-- per instruction: every variable lies inside the `pts` table, an allocation site lies inside the mask width,
+    every variable that is *read* is a parameter or bound by some instruction (`m = defMask p`), and the variable whose
+    buffer is *changed* (`write x`, `store x _`, `setattr x _`) has a non-empty points-to set in the candidate (an
+    element read out of a container without reference slots legitimately has the empty set; a write target does not) -/
+def instrWf (b : SolB) (m : Nat) (i : Instr) : Bool :=
+  i.vars.all (fun x => x / b.k < b.pts.length)
+  && (match i with | .new _ s => s + 1 < b.w | _ => true)
+  && i.uses.all (fun x => m.testBit x)
+  && (match i.target with | some x => b.ptsOf x != 0 | none => true)
+
+/-- the tables are non-degenerate and cover every abstract object and every parameter -/
+def headWf (p : Prog) (b : SolB) : Bool :=
+  0 < b.k && 0 < b.w && (b.w - 1) / b.k < b.cont.length && p.params.all (fun x => x / b.k < b.pts.length)
+
+def wellFormed (p : Prog) (b : SolB) : Bool :=
+  headWf p b && p.instrs.all (instrWf b (defMask p))
+
 /-! ## global-state classification -/
 
 def Instr.readsGlobal : Instr → Option GlobalId
